@@ -716,6 +716,105 @@ def check_C17(run):
                                'Fd, BoundedWriter over each), element widths 1/2/4/8; distinct = distinct commands')
 
 
+# ===========================================================================
+# C18 SipHash / C20 HostEndian
+
+
+def key_fn(prop):
+    def fn(ev, why, cmd=None):
+        if ev.get("e") in ("UB", "Crash", "Exc", "Timeout", "BadCmd"):
+            return abnormal_key(prop, ev, why, cmd)
+        return '%s|%s|%s' % (prop, ev.get("e"), ','.join(why)), 'event %s violates: %s (command %s)' % (
+            ev.get("e"), ', '.join(why), ev.get("idx"))
+    return fn
+
+
+def run_fn(run, prop, cmds, flavour='plain'):
+    exe, types_path = vf.get_exe(run, flavour)
+    trace = vf.exec_commands(run, exe, cmds, prop.lower(), per_cmd_timeout=120)
+    rejected = vf.tlc_validate(run, 'TrFn', 'TrCodec.cfg', trace, {"PROP": prop})
+    add_rejections(run, rejected, key_fn(prop), index_cmds(cmds))
+
+
+def check_C18(run):
+    thorough = run.tier == 'thorough'
+    rng = random.Random(run.seed)
+    fut = start_model_check(run, 'MC_Fn', 'MC_Fn.cfg', workers=2)
+    keys = [(0, 0), ((1 << 64) - 1, (1 << 64) - 1), (0x0706050403020100, 0x0f0e0d0c0b0a0908), (1, 0), (0, 1 << 63),
+            (0xbaadf00ddeadbeef, 0x0123456789abcdef), (0xdeadcafebaadf00d, 0x0123456789abcdef)]
+    cmds = [{"c": "names"}]
+    lengths = list(range(0, 81)) + list(range(250, 261)) if thorough else list(range(0, 34)) + [63, 64, 65, 255, 256, 257]
+    k = 0
+    for n in lengths:
+        for variant in range(3 if thorough else 1):
+            k0, k1 = keys[k % len(keys)] if variant == 0 else (rng.getrandbits(64), rng.getrandbits(64))
+            if variant == 0 and k % 3 == 0:
+                msg = [(i * 37 + 0x80 + n) % 256 for i in range(n)]     # many bytes >= 0x80
+            elif k % 3 == 1:
+                msg = [i % 128 for i in range(n)]                         # ASCII only
+            else:
+                msg = [rng.randrange(256) for _ in range(n)]
+            cmds.append({"c": "sip", "k0": word(k0, 8), "k1": word(k1, 8), "msg": msg})
+            run.distinct.add((n, k0, k1, vf.digest(msg)))
+            k += 1
+    cmds = with_resets(cmds, 4)
+    run.samples = cmds[1:4]
+    run_fn(run, 'C18', cmds)
+    fut.result()
+    return vf.finish(run, rule='messages of every length 0..33 (0..80 and 250..260 thorough) incl. every residue mod 8 and >255, '
+                               'bytes over the whole range, presented as uint8_t and as char buffers, fixed/patterned/random '
+                               '128-bit keys; 26 generated names x (NOP_TABLE_NS hash at compile time, at run time and on the '
+                               'wire; NOP_INTERFACE / NOP_INTERFACE32 hash; NOP_METHOD selector); distinct = distinct (length, '
+                               'key, message)')
+
+
+def check_C20(run):
+    thorough = run.tier == 'thorough'
+    rng = random.Random(run.seed)
+    fut = start_model_check(run, 'MC_Fn', 'MC_Fn.cfg', workers=2)
+    cmds = []
+    ops = ["FromLittle", "ToLittle", "FromBig", "ToBig"]
+    types = [("u8", 1), ("i8", 1), ("u16", 2), ("i16", 2), ("u32", 4), ("i32", 4), ("u64", 8), ("i64", 8), ("f32", 4), ("f64", 8)]
+    for t, w in types:
+        if w == 1:
+            values = [[x] for x in range(256)]
+        elif w == 2:
+            values = [word(x, 2) for x in range(65536)]
+        else:
+            values = [word(v, w) for v in vals.int_boundaries(w, t[0] == 'i')]
+            values += [word(int.from_bytes(bytes(range(1, w + 1)), 'little'), w), word((1 << (8 * w)) - 1, w)]
+            values += [word(1 << (8 * i), w) for i in range(w)] + [word(0x80 << (8 * i), w) for i in range(w)]
+            if t[0] == 'f':
+                values += vals.float_words(w, rng)
+            values += [word(rng.getrandbits(8 * w), w) for _ in range(400 if thorough else 60)]
+        for op in ops:
+            for i in range(0, len(values), 512):
+                cmds.append({"c": "end", "T": t, "op": op, "in": values[i:i + 512]})
+            run.distinct.add((t, op, len(values)))
+    # exhaustive 32-bit part: the byte map is emitted by TLC from Endian.tla, the executor only applies it
+    exe, _ = vf.get_exe(run, 'plain')
+    facts = vf.exec_commands(run, exe, [{"c": "facts"}], 'facts')
+    host_le = json.loads(open(facts).readline())["little_endian"]
+    maps = vf.tlc_generate(run, 'Gen_Endian', {"HostLE": bool(host_le)})
+    if not maps:
+        raise vf.MachineryError('Gen_Endian emitted no map')
+    for t in ("u32", "i32", "f32"):
+        for op in ops:
+            c = {"c": "end32", "T": t, "op": op, "map": maps[0][op]}
+            if not thorough:
+                c["count"] = 1 << 27      # the quick tier sweeps the first 2^27 inputs, the thorough tier all 2^32
+            cmds.append(c)
+    cmds = with_resets(cmds, 16)
+    run.samples = [{"c": "end", "T": "u16", "op": "FromBig", "in": [[1, 2], [255, 0]]}, cmds[-1]]
+    run.exhaustive = thorough
+    run_fn(run, 'C20', cmds)
+    fut.result()
+    return vf.finish(run, rule='all four conversions on int8..int64, uint8..uint64, float, double: every value of the 8- and '
+                               '16-bit types validated by TLC against Endian.tla, boundary/lane/random values of the wider '
+                               'types, and all 2^32 inputs of uint32/int32/float against the byte map emitted by TLC from '
+                               'Endian.tla; distinct = (type, operation) pairs')
+
+
 def replay(run, path):
     with open(path) as f:
         rp = json.load(f)
